@@ -325,7 +325,11 @@ func whitespace(compact string, mode string) string {
 		case '"':
 			inStr = true
 			b.WriteByte(c)
-		case ',', ':', '[', '{':
+		case ',', ':':
+			b.WriteString(sep) // insignificant whitespace may also stand before a separator
+			b.WriteByte(c)
+			b.WriteString(sep)
+		case '[', '{':
 			b.WriteByte(c)
 			b.WriteString(sep)
 		case ']', '}':
